@@ -76,6 +76,27 @@ class BoundMethod:
         return hash((id(self.fi), id(self.self_obj)))
 
 
+class KwView(dict):
+    """Keyword arguments of a call of a repository function, plus a read-only by-name view of the positional ones."""
+
+    def __init__(self, real, named):
+        super().__init__(real)
+        self._named = named
+
+    def get(self, k, default=None):
+        if dict.__contains__(self, k):
+            return dict.__getitem__(self, k)
+        return self._named.get(k, default)
+
+    def __getitem__(self, k):
+        if dict.__contains__(self, k):
+            return dict.__getitem__(self, k)
+        return self._named[k]
+
+    def __contains__(self, k):
+        return dict.__contains__(self, k) or k in self._named
+
+
 class Closure:
     def __init__(self, fi, env, node=None):
         self.fi = fi
@@ -121,9 +142,10 @@ class External:
 
 
 class Intrinsic:
-    def __init__(self, name, fn):
+    def __init__(self, name, fn, params=None):
         self.name = name
         self.fn = fn
+        self.params = params       # parameter names of the repository function this intrinsic stands for (without self)
 
 
 class SuperProxy:
@@ -345,7 +367,33 @@ class Interp:
         raise self.err(f"unbound name `{name}`", node, fi)
 
     # ------------------------------------------------------------------ calls
+    def canonical_args(self, callee, args, kwargs):
+        """One argument style for the repository's own functions, whatever style the call site uses: the maximal
+        prefix of the parameters that was supplied (positionally or by keyword) is positional; the rest stays in the
+        keyword dictionary, which additionally answers `get` / `in` / `[]` for the positionally bound names (a view
+        for the rule hooks; iterating or copying it yields the real keywords only)."""
+        fnode = None
+        skip = 0
+        if isinstance(callee, BoundMethod):
+            fnode, skip = callee.fi.node, 1
+        elif isinstance(callee, Closure) and not isinstance(callee.node, ast.Lambda):
+            fnode = callee.node
+        elif isinstance(callee, Intrinsic) and callee.params is not None and not isinstance(kwargs, KwView):
+            params = list(callee.params)
+            args, kw = list(args), dict(kwargs)
+            while len(args) < len(params) and params[len(args)] in kw:
+                args.append(kw.pop(params[len(args)]))
+            return args, KwView(kw, dict(zip(params, args)))
+        if fnode is None or not isinstance(fnode, (ast.FunctionDef, ast.AsyncFunctionDef)) or isinstance(kwargs, KwView):
+            return args, kwargs
+        params = [p.arg for p in fnode.args.posonlyargs + fnode.args.args][skip:]
+        args, kw = list(args), dict(kwargs)
+        while len(args) < len(params) and params[len(args)] in kw:
+            args.append(kw.pop(params[len(args)]))
+        return args, KwView(kw, dict(zip(params, args)))
+
     def call(self, callee, args, kwargs, node=None, fi=None):
+        args, kwargs = self.canonical_args(callee, args, kwargs)
         r = self.hooks.on_call(self, callee, args, kwargs, node, fi)
         if r is not NotImplemented:
             return r
